@@ -303,6 +303,23 @@ FailedClaims(rows, s, g, c) ==
          \o (IF ClaimBlank(rows, g, c) THEN "" ELSE "blank ")
 
 -------------------------------------------------------------------------------
+(* NAMED DEVIATION (finding "info-tail-not-cleared", src/terminal.go printInfoImpl).  With a separator configured  *)
+(* the info text is repainted without clearing the rest of its line; the separator that follows normally           *)
+(* overwrites what was there - but when the text ends exactly one column short of its room (fill = 0) nothing is   *)
+(* drawn after it, and the cell next to it keeps the character an earlier, different rendition left there (a       *)
+(* separator dash, or the last character of a longer info text: "10/10 (9))").  The screen then is the exact       *)
+(* rendition plus one stale cell at the end of the info text.  Not part of Render; the judge names it.             *)
+InfoFill(s, g, c) == InfoRoom(QShown(s, g, c), s, g, c) - Len(InfoText(s)) - 1
+DevInfoTail(rows, s, g, c) ==
+    /\ c.sep /\ ~c.inputless /\ c.info \in {"default", "inline"}
+    /\ InfoFill(s, g, c) = 0
+    /\ Len(rows) = g.h
+    /\ LET R == Render(s, g, c) IN
+       \E r \in InfoRowIx(g, c) :
+          /\ \A i \in 1..g.h : i # r => rows[i] = R[i]
+          /\ Len(rows[r]) = Len(R[r]) + 1 /\ IsPrefix(R[r], rows[r])
+
+-------------------------------------------------------------------------------
 (* Properties of the placement (checked by MC_Screen on all small geometries and configurations) *)
 HeaderStackIx(i, c) == IF c.layout = "reverse" THEN i ELSE Len(c.header) + 1 - i      \* where c.header[i] is in HdrStack
 HeaderRowsOf(i, g, c) == {r \in 1..g.h : SlotAt(r - 1, g, c) = [kind |-> "header", ix |-> HeaderStackIx(i, c)]}
